@@ -191,7 +191,7 @@ def replay_history(ctx, s, e, rng, paths):
                 f = m.project(list(seq) if rng.random() < 0.5 else tuple(seq))
                 cmp_factor(f, seq, ans["a"], "project(%s)" % (seq,))
                 if bool(hasattr(m, "marginals")) != bool(h["cached"]):
-                    bad.append("cache state: hasattr(marginals)=%s, spec %s" % (hasattr(m, "marginals"), h["cached"]))
+                    ctx.deviation("cache state differs from ModelQuery.tla: hasattr(marginals)=%s, spec %s" % (hasattr(m, "marginals"), h["cached"]), info)
             elif c["k"] == "many":
                 projs = [tuple(q) for q in c["list"]]
                 res = m.calculate_many_marginals(projs)
